@@ -271,7 +271,8 @@ func TestVerifC06Sweep(t *testing.T) {
 				if i == roSrv {
 					nm = 1
 				}
-				rt.srvRO[i] = i != 0 && i != roSrv && rr.Chance(1, 8)
+				// a read-only service: always in configurations 1, 4, 7, ... (the last service), now and then elsewhere
+				rt.srvRO[i] = i != 0 && i != roSrv && (rr.Chance(1, 8) || (conf%3 == 1 && i == nsrv-1))
 				var ms []c06Mount
 				for j := 0; j < nm; j++ {
 					num++
@@ -287,8 +288,8 @@ func TestVerifC06Sweep(t *testing.T) {
 						m.ro = rr.Chance(1, 2) // read-only view of dev-shared, shadowed when service 0 mounts it read-write
 					case i > 0 && j == 0 && rr.Chance(1, 6):
 						m.ro = true
-					case j == 0 && i > 1 && rr.Chance(1, 6):
-						m.dev = "" // blank device id
+					case j == 0 && i > 1 && (rr.Chance(1, 6) || (conf%3 == 2 && i == 2)):
+						m.dev = "" // blank device id (always on service 2 in configurations 2, 5, 8, ...)
 					}
 					switch rr.Intn(6) {
 					case 0:
@@ -328,7 +329,7 @@ func TestVerifC06Sweep(t *testing.T) {
 			rt.failAt, rt.cutIndex, rt.failMode = failAt, cut, mode
 			client := &arvados.Client{Client: &http.Client{Transport: rt}, Scheme: "http", APIHost: "api.example", AuthToken: "tok"}
 			cluster := &arvados.Cluster{}
-			cluster.Collections.BalanceTimeout = arvados.Duration(time.Minute)
+			cluster.Collections.BalanceTimeout = arvados.Duration(time.Hour) // no verdict depends on it
 			cluster.Collections.BalanceCollectionBatch = pageSize
 			cluster.Collections.BalanceCollectionBuffers = 2
 			lg := c05Logger
